@@ -147,35 +147,31 @@ def gen_identity_path_cases(ctx):
     rng = ctx.rng
     cases = []
     upool = (0, RUID2, EUID2, SUID2)
+    # every (r, e, s) over four uids up to renaming of the non-root ones that keeps the roles apart
     utriples = [(r, e, sv) for r in upool for e in upool for sv in upool
-                if (r in (0, RUID2) or r == e) and (sv in (0, SUID2) or sv == e or sv == r)]
-    gpool = (0, RGID2, EGID2, SGID2, TGID, OGID)
+                if r in (0, RUID2, e) and sv in (0, SUID2, e, r) and e in (0, EUID2)]
     gtriples = [(0, 0, 0), (RGID2, EGID2, SGID2), (RGID2, 0, 0), (0, EGID2, 0), (0, 0, SGID2), (TGID, OGID, 0),
-                (OGID, TGID, TGID), (EGID2, EGID2, EGID2), (TGID, TGID, TGID), (0, OGID, TGID)]
-    if not ctx.thorough:
-        keep = [t for t in utriples if len(set(t)) == 3 or t in ((0, 0, 0), (EUID2, EUID2, EUID2))]
-        rest = [t for t in utriples if t not in keep]
-        rng.shuffle(rest)
-        utriples = keep + rest[:14]
+                (OGID, TGID, TGID), (EGID2, EGID2, EGID2), (TGID, TGID, TGID), (0, OGID, TGID), (RGID2, RGID2, EGID2)]
     n = 0
     for (r, e, sv) in utriples:
         owners = sorted({0, r, e, sv, FOREIGN})
         for owner in owners:
-            for bits in ((0,) if (owner in (0, e) and not ctx.thorough) else (0, 1)) + ((1, 5, 2) if owner == e else ()):
-                n += 1
-                rg, eg, sg = gtriples[n % len(gtriples)] if not ctx.thorough else rng.choice(gtriples)
-                k = 2 + n % 3
-                pos = n % k
-                # group of the odd directory: one of the process's gids, the trusted group, or another one
-                g = (rg, eg, sg, TGID, OGID)[n % 5] or OGID
-                m = 0o755 | (0o020 if bits & 1 else 0) | (0o002 if bits & 2 else 0) | (0o1000 if bits & 4 else 0)
-                combo = [(0, OGID, 0o755)] * k
-                combo[pos] = (owner, g, m)
-                if e != 0 and pos != k - 1 and n % 2:
-                    combo[k - 1] = (e, OGID, 0o755)          # leaf owned by the effective user, as munged's would be
-                tg = ("-", str(TGID), str(g))[n % 3] if bits & 1 else ("-", str(TGID))[n % 2]
-                cases.append("I %d %d %d %d %d %d %s %d %s %d %s" % (r, e, sv, rg, eg, sg, tg, (n // 7) % 2,
-                                                                   "dsuf"[n % 4], k, fmt_attrs(combo)))
+            for bits in (0, 1, 2, 5) + ((4, 3) if ctx.thorough else ()):
+                for rep in range(12 if ctx.thorough else 6):
+                    n += 1
+                    rg, eg, sg = gtriples[n % len(gtriples)] if not ctx.thorough else rng.choice(gtriples)
+                    k = 2 + n % 3
+                    pos = (n // 3) % k
+                    # group of the odd directory: one of the process's gids, the trusted group, or another one
+                    g = (rg, eg, sg, TGID, OGID)[n % 5] or OGID
+                    m = 0o755 | (0o020 if bits & 1 else 0) | (0o002 if bits & 2 else 0) | (0o1000 if bits & 4 else 0)
+                    combo = [(0, OGID, 0o755)] * k
+                    combo[pos] = (owner, g, m)
+                    if e != 0 and pos != k - 1 and n % 2:
+                        combo[k - 1] = (e, OGID, 0o755)      # leaf owned by the effective user, as munged's would be
+                    tg = ("-", str(TGID), str(g))[n % 3] if bits & 1 else ("-", str(TGID))[n % 2]
+                    cases.append("I %d %d %d %d %d %d %s %d %s %d %s" % (r, e, sv, rg, eg, sg, tg, (n // 7) % 2,
+                                                                       "dsuf"[n % 4], k, fmt_attrs(combo)))
     return cases
 
 
@@ -458,8 +454,9 @@ def gen_daemon_cases(ctx):
     # --- whatever is at the name of a file the daemon creates: nothing, a regular file of any owner and mode, a
     #     symlink to one, a dangling symlink, a directory, a FIFO, a socket
     def priors(site):
+        # (no set-id modes: the kernel strips them when an unprivileged process writes to the file)
         out = []
-        rmodes = (0o666, 0o644, 0o600, 0o777, 0o000, 0o200, 0o660, 0o640, 0o606, 0o4755, 0o1644, 0o620) if T else \
+        rmodes = (0o666, 0o644, 0o600, 0o777, 0o000, 0o200, 0o660, 0o640, 0o606, 0o755, 0o1644, 0o620) if T else \
                  (0o666, 0o644, 0o600, 0o777, 0o000, 0o200, 0o660, 0o606)
         for m in rmodes:
             for owner in ("euid", "foreign", "ruid"):
@@ -739,8 +736,11 @@ def run_daemon_case(exe, top, idx, case):
             p = subprocess.Popen(argv, stdin=subprocess.DEVNULL, stdout=ef, stderr=ef, cwd="/")
         started = False
         t0 = time.time()
-        fifo_about = any((case.get(s) or {}).get("type") == "fifo" for s in PRIOR_SITES)
-        limit = 3 if fifo_about else 10
+        # a FIFO at the seed's or (without --force) the lock file's name is expected to block the start: do not
+        # wait long for those; everything else gets the generous limit
+        blocks = (case.get("seed") or {}).get("type") == "fifo" or \
+            ((case.get("lock") or {}).get("type") == "fifo" and not case["force"])
+        limit = 3 if blocks else 10
         if case["fg"]:
             while time.time() - t0 < limit:
                 if p.poll() is not None:
@@ -915,6 +915,15 @@ def daemon_property(case, obs, tail, before):
             w = created_file_clause("created log file", 0o640, False, "r", obs["log"], before["log"], euid, um, ids)
             if w:
                 return w
+        elif not case["fg"] and not case["force"]:
+            # a log file that was there already: its mode is left alone (observation C16_existing_log_keeps_mode),
+            # but without --force it has to be the daemon's own file, not one reached through a symlink
+            lg = parse_fobs(obs["log"])
+            if lg["type"] == "r" and lg["uid"] != euid:
+                return ("log file belongs to uid %d, not to the effective uid %d munged runs as: its owner controls it "
+                        "(there before the start: %s; process ruid:euid:rgid:egid = %s)" % (lg["uid"], euid, before["log"], ids))
+            if lg["sym"]:
+                return "log file is reached through a symbolic link (there before the start: %s)" % before["log"]
         w = created_file_clause("seed file", 0o600, False, "r", obs["seed"], before["seed"], euid, um, ids)
         if w:
             return w
@@ -1195,6 +1204,9 @@ def run(ctx):
         ctx.violation("%d daemon runs failed in the check's own machinery: %s" % (len(infra), infra[0][:300]),
                       {"obligation": "infrastructure", "errors": infra[:3]}, found_input=False)
     if direct_fail:
+        # lead with a case where something insecure was accepted (rather than something secure refused)
+        direct_fail.sort(key=lambda t: 0 if re.search(r"accepts|starts without|more permissive|belongs to|was used|is not|"
+                                                      r"symbolic link|not removed", t[2]) else 1)
         x, a, why = direct_fail[0]
         d = replay_of(x)
         d.update({"impl_output": a, "why": why, "n_failing": len(direct_fail),
